@@ -48,6 +48,13 @@ claim("C05", "proof", "operator-table agreement: precedence/associativity/litera
       "The expression language is a finite table implemented twice (grammar, evaluator). Grammar side: all 18 binary and 3 unary rows with level, fixity, associativity and token->variant pairing, decided with rust-peg's own translation rule (a precedence-climbing parser is fully determined by that table, so operator interactions are covered); literal prefixes, radices, digit classes, alternative order. Evaluator side: per operator variant the result of Expr::run with symbolic operands must be a single primitive operation that agrees with the reference on a boundary grid separating all primitives (value and failure behaviour: an input with neither an Ok nor an Err path is a violation); functions are decided exactly by bit provenance.",
       "Trusted: rustc MIR, spec/operators.json, peg-macros 0.8.4 translation (read from source), E1. i64::MIN % -1 may be 0 or an error.", engine="E0+E1+E2")
 
+claim("C02", "other", "one-iteration loop summaries (abstract interpretation with symbolic loop-carried state) of pass 1, pass 2 and the two segment loops; agreement of the extracted per-item and per-segment tables",
+      "Decides the per-item and per-segment arithmetic in which the two passes can drift apart: instruction length (info.len vs encoder bytes per operation and core), data advance and bytes per (directive, segment, operand kinds) on a grid of abstract sizes, .db padding decided once in pass 1, per-segment-type counters and ram_filling, the .org start/overlap guard and the zero-padding loops landing the next fragment at unit x address, each fragment in its own image. With the loop shape (plain forward iterator, exit only on Err) agreement per iteration gives agreement for every item sequence. Level 'other' because the claim is delimited to these clauses: that the parser/pass 0 deliver the program's segment sequence is not decided.",
+      "Assumes for-loops visit each element once in order; image lengths < 2^31. Not decided: .org 0 after code (address==0 sentinel), negative .org, .org inside macros.", engine="E0+E1")
+claim("C06", "proof", "value-set and bit-provenance dataflow on the four data conversions; one-iteration loop summaries of the operand loops and of pass 1/2 item handling",
+      "For each element width the accepted value set must be exactly the width's signed-or-unsigned range and every emitted bit the right bit of the value in little-endian order (through the resolved byteorder callee); an expression operand contributes exactly its own conversion, a string its bytes (.db) or an error (word directives); operands are visited by a plain forward iterator and appended; segment rules, the one-zero-iff-odd flash padding, no EEPROM padding and '.byte n = n zeros' are per-item path facts of pass 1/pass 2.",
+      "Assumes for-loops visit each element once in order; strings are the bytes of the Rust String. Trusted: rustc MIR, E1 summaries.", engine="E0+E1")
+
 ENGINES = [
     {"name": "E0 fact driver", "path": "driver/", "serves_properties": sorted(P), "kind_free_text": "rustc_private driver (RUSTC_WORKSPACE_WRAPPER) dumping callee-resolved MIR, ADT/static/impl tables of /repo's two crates as JSON"},
     {"name": "E1 abstract interpreter", "path": "analysis/absint.py", "serves_properties": ["C01", "C02", "C03", "C04", "C05", "C06", "C08", "C12", "C13"], "kind_free_text": "path-sensitive abstract interpretation of MIR: named unknowns, value sets, bit provenance, linear forms; no solver, no execution of /repo"},
